@@ -54,6 +54,12 @@ def pipeline(ctx, cid, x, y, strat, n, kw, append, rule, info):
             wv = Weaver(x, y)
             if append is not None:
                 wv.append_one_sample(make_periodic=append)
+            if (len(x) + 2 * n) % 5 == 0:
+                # the pipeline continues on a duplicate of the live object (a copy handed to a worker, a pickle round trip)
+                import copy
+                import pickle
+                wv = copy.deepcopy(wv) if (len(x) + n) % 2 else pickle.loads(pickle.dumps(wv))
+                info["continued_on_a_duplicate"] = True
             # a factor taken from a NumPy computation / read from an unsigned column
             n_arg = gen.COUNT_TYPES[(len(x) + n) % len(gen.COUNT_TYPES)](n) if (len(x) + n) % 3 == 0 and n < 256 else n
             if strat == "ExpAdaptiveRFA" and not kw:
